@@ -479,7 +479,11 @@ class Builtins:
             for c in e.classes.mro(v.ty.cls):
                 q = f"{e.c.class_module(c)}.{c}.__len__"
                 if q in e.reg:
-                    return e.call_contract(q, [v], {}, line, hoisted=False)
+                    r = e.call_contract(q, [v], {}, line, hoisted=False)
+                    # CPython: len() converts the result of a user __len__ to Py_ssize_t
+                    e.fail("ValueError", r.t < 0, line, "len-negative")
+                    e.fail("OverflowError", r.t > z3.IntVal(2 ** 63 - 1), line, "len-fits-index")
+                    return r
             pm = e.classes.pure_method(v.ty.cls, "__len__")
             if pm:
                 f = z3.Function(f"{pm[0]}.__len__", I, I)
